@@ -779,6 +779,11 @@ class Interp:
                 return ("app", "shape", (base[1], idx))
             if idx[0] == "slice":
                 return ("app", "shape_slice", (base[1],) + idx[1:])
+        if k == "app" and base[1] == "shape_slice" and is_num(idx) and idx[1] >= 0 and len(base[2]) >= 3:
+            # x.shape[lo:hi][k] is x.shape[lo + k]
+            lo, st = base[2][1], (base[2][3] if len(base[2]) > 3 else NONE)
+            if (lo == NONE or (is_num(lo) and lo[1] >= 0)) and st == NONE:
+                return ("app", "shape", (base[2][0], K((0 if lo == NONE else int(lo[1])) + int(idx[1]))))
         if idx[0] == "tuple":
             # multi-axis index; scalar components peel leading axes, full slices keep them
             items = idx[1]
@@ -996,7 +1001,8 @@ class Interp:
         if k == "ite":
             return self.axes_of(t[2]) or self.axes_of(t[3])
         if k in ("scatter", "atadd"):
-            return self.axes_of(t[1])
+            # a zeros_like base is folded to the constant 0 and has lost its shape: it was shaped like what it is indexed by
+            return self.axes_of(t[1]) or (self.axes_of(t[2]) if t[1] == ZERO and t[2][0] != "tuple" else ())
         if k == "fold":
             return self.axes_of(t[3])
         if k == "poly":
